@@ -96,7 +96,8 @@ def _describe(cfg):
     return "%s(%d,%d,%s)" % (c, cfg["n"], cfg["s"], cs)
 
 
-STYLES = {"kw": "every argument by keyword", "kwr": "every argument by keyword, in the reverse of the documented order", "dflt": "arguments equal to the signature default omitted",
+STYLES = {"kw": "every argument by keyword", "kwr": "every argument by keyword, in the reverse of the documented order",
+          "pkr": "first argument by position, the others by keyword in the reverse of the documented order", "dflt": "arguments equal to the signature default omitted",
           "ci": "integral costs as Python ints", "npf": "costs as numpy.float64"}
 
 
@@ -153,6 +154,9 @@ def styled_call(cfg):
     if style == "kwr":
         allkw = list(pos) + list(kw.items())
         return klass, [], dict(reversed(allkw))
+    if style == "pkr":
+        allkw = list(pos[1:]) + list(kw.items())
+        return klass, [v for _, v in pos[:1]], dict(reversed(allkw))
     if style == "dflt":
         params = inspect.signature(klass.__init__).parameters
         def is_default(k, v):
@@ -556,7 +560,7 @@ def call_style_box(tier):
                      {"cls": "PeriodicDiskRevolve", "n": n, "s": 1, "c8": c8, "passes": 1},
                      {"cls": "HRevolve", "n": n, "s": 1, "d": 2, "c8": c8, "passes": 1}]
         for c in base:
-            for st in ("kw", "kwr", "dflt") + (("ci", "npf") if "c8" in c else ()):
+            for st in ("kw", "kwr", "pkr", "dflt") + (("ci", "npf") if "c8" in c else ()):
                 yield dict(c, style=st)
 
 
